@@ -1589,7 +1589,7 @@ func main() {
 	mon.Floor("cli:dedup:name=true", 20)
 	mon.Floor("cli:dedup:name:removed>0", 10)
 	mon.Floor("cli:dedup:removed>0", 50)
-	mon.Floor("cli:dedup:n-as-gap-merges-more-than-exact", 3)
+	mon.Floor("cli:dedup:n-as-gap-merges-more-than-exact", 25)
 	for _, a := range []string{"nt", "aa", "auto"} {
 		mon.Floor("cli:dedup:alphabet:"+a, 6)
 	}
